@@ -103,14 +103,37 @@ func c12Build(cs *vkit.Case, x *vexec.Exec, ix string) {
 	for i, n := range c12Nodes {
 		x.VAdd(ix, n, []float32{float32(i), 1}, map[string]any{"name": n})
 	}
-	// guaranteed: incoming, outgoing, inverse and self edge on the victim
-	x.VLink(ix, "a", "v", "r", "", 1, nil)
-	x.VLink(ix, "v", "b", "r", "ri", 1, map[string]any{"k": "v"})
-	if r.Chance(0.7) {
+	// the shape of the victim's neighbourhood: edges in both directions (incoming, outgoing,
+	// inverse, self), only outgoing, only incoming, only a self loop, or whatever the random
+	// edges give
+	shape := (cs.Idx / 6) % 5
+	pool := c12Nodes
+	switch shape {
+	case 0:
+		x.VLink(ix, "a", "v", "r", "", 1, nil)
+		x.VLink(ix, "v", "b", "r", "ri", 1, map[string]any{"k": "v"})
+		if r.Chance(0.7) {
+			x.VLink(ix, "v", "v", "s", "", 1, nil)
+		}
+	case 1:
+		pool = c12Nodes[1:]
+		x.VLink(ix, "v", "b", "r", "", 1, map[string]any{"k": "v"})
+		if r.Chance(0.6) {
+			x.VLink(ix, "v", vkit.Pick(r, pool), vkit.Pick(r, []string{"r", "s"}), "", 1, nil)
+		}
+	case 2:
+		pool = c12Nodes[1:]
+		x.VLink(ix, "a", "v", "r", "", 1, nil)
+		if r.Chance(0.6) {
+			x.VLink(ix, vkit.Pick(r, pool), "v", vkit.Pick(r, []string{"r", "s"}), "", 1, nil)
+		}
+	case 3:
+		pool = c12Nodes[1:]
 		x.VLink(ix, "v", "v", "s", "", 1, nil)
 	}
+	cs.Op("victim shape %d", shape)
 	for i := 0; i < r.Range(3, 10); i++ {
-		src, tgt := vkit.Pick(r, c12Nodes), vkit.Pick(r, c12Nodes)
+		src, tgt := vkit.Pick(r, pool), vkit.Pick(r, pool)
 		inv := ""
 		if r.Chance(0.3) {
 			inv = "ri"
@@ -289,7 +312,7 @@ func TestVerifC12(t *testing.T) {
 			}
 			ctx.Eval(1)
 			ctx.Count("mode."+mode, 1)
-			ctx.Distinct(fmt.Sprintf("%s|%s", mode, x.KindKey()))
+			ctx.Distinct(fmt.Sprintf("%s|shape%d|%s", mode, (cs.Idx/6)%5, x.KindKey()))
 			ctx.Sample("case", 3, map[string]any{"mode": mode, "ops": cs.Ops()})
 		})
 	})
